@@ -5,7 +5,7 @@ cd "$(dirname "$0")/.." || exit 2
 bad=0
 s=$1
 while [ "$s" -le "$2" ]; do
-  for c in C06 C11 C18 C24 C25 C26 C27 C32 C34; do
+  for c in ${CHECKS:-C06 C11 C18 C24 C25 C26 C27 C32 C34}; do
     out=$(VERIF_SEED=$s ./check $c --tier "${3:-quick}" --no-evidence 2>&1)
     rc=$?
     echo "seed=$s $c rc=$rc $(echo "$out" | grep -E '^runs=' | cut -c1-120)"
